@@ -269,6 +269,15 @@ def reference(name, A, simple_cmp=False):
             py = ''.join(chr(c.as_long()) for c in cs)
             out = {'trim': py.strip(' \t\n\r\x0b\x0c'), 'to_lowercase': py.lower(), 'to_uppercase': py.upper()}[kind]
             return [(T, ('val', ('S', chars(out))))]
+        if kind == 'trim' and len(cs) <= 6:
+            # exact reference: the longest substring without leading / trailing White_Space characters (is_whitespace is validated over all scalars)
+            ws = [is_ws(x) for x in A[1]]
+            n_ = len(ws)
+            out = [(z3.And(*ws) if ws else T, ('val', ('S', [])))]
+            for i_ in range(n_):
+                for j_ in range(i_ + 1, n_ + 1):
+                    out.append((z3.And(*(ws[:i_] + [z3.Not(ws[i_]), z3.Not(ws[j_ - 1])] + ws[j_:])), ('val', ('S', list(A[1][i_:j_])))))
+            return out
         return [(T, ('str', [Opaque(kind, (SStr([Int(c, False) for c in A[1]]),))]))]
     if name == 'str::from':
         bs = bool_splits(A)
